@@ -59,6 +59,9 @@ CHECKS = {
     "C16": ("pbt-programs", "Hypothesis-generated (constant, target unit, type) cases: library constants modelled from the SI exact values and make_constant of generated units with integer/rational/huge-prime/pi magnitudes; static_assert of can_store_value_in and of the converted values against exact ratios / 30-digit bounds, negative probes (with twins) for every conversion form when the ratio is not representable, algebra cases pinning stored number and spelled result unit",
             "Exploration: grid over the 9 library constants x types plus random generated constants and scale factors straddling each type's limits.",
             "same floating bands as C11; model of the constants independent of the headers", "4/C16"),
+    "C17": ("pbt-values", "generated (Rep1, Period1, Rep2, Period2) instances (library typedef periods, awkward ratios, random ratios): round trips bit-exact with rep/unit/period pinned by static_assert; mixed duration/quantity comparisons, sums and differences in both operand orders against chrono's own results (differential oracle) where the model says chrono does not overflow, built as C++20 and syntax-checked elsewhere; acceptance traits against the C06 model",
+            "Exploration with chrono itself as the differential oracle; special grids + rapidcheck draws incl. near-equal counts across periods.",
+            "mixed operations compared only on instances admitted by Au's conversion policy (model-predicted, compile-checked)", "4/C17"),
 }
 ENGINES = [
     {"name": "pbt-programs", "path": "auverif/hyp.py", "kind_free_text": "Hypothesis-generated translation units judged by compiler verdict / static_assert / program output against an independent Python model",
